@@ -367,7 +367,13 @@ def run(ctx):
         if reb:
             ctx.notes.append("observation (not a result/gradient): %s rebinds <tensor>.data = kernel output; with float64 input and float32 running "
                              "statistics the statistics become float64" % ", ".join("%s:%s" % x for x in reb))
-    ok_build, fails = ctx.build_props(extra_targets=["IR/Dtype.vo", "Gen/GenDtype.vo", "Proofs/DtypeProofs.vo"])
+    if info is None:
+        # coq/Gen/GenDtype.v is stale (from an earlier run): theorems about it say nothing about this source tree
+        ok_build = False
+        for n in common.theorems_in("Props/C10.v"):
+            ctx.obligations.append({"name": n, "ok": False, "where": "Props/C10.v", "detail": "generated definitions unavailable (translator failed closed)"})
+    else:
+        ok_build, fails = ctx.build_props(extra_targets=["IR/Dtype.vo", "Gen/GenDtype.vo", "Proofs/DtypeProofs.vo"])
     ctx.log("build", "ok" if ok_build else "FAILED")
     # ---- run the implementation once (recorded), then compare ---------------------------------------------------------
     obs_list, recdata = run_all(ctx, info)
